@@ -8,6 +8,7 @@ import Driver.Graph
 import Driver.Errors
 import Driver.Partial
 import Driver.Eq
+import Driver.Serialize
 open Lean Driver
 
 def dispatch (req : Json) : R Json := do
@@ -17,6 +18,7 @@ def dispatch (req : Json) : R Json := do
   | "graph" => Driver.Graph.handle req
   | "partial" => Driver.Partial.handle req
   | "eq" => Driver.Eq.handle req
+  | "serialize" => Driver.Serialize.handle req
   | "guard" => Driver.Errors.handleGuard req
   | "decorate" => Driver.Errors.handleDecorate req
   | _ => throw "bad-op"
